@@ -38,6 +38,7 @@ var carriers = []carrier{
 	{"arr2", "[2]int", "[2]int{x, x}", "v[0]", "array", false},
 	{"NA", "NA", "NA{x, 5}", "v[0]", "array", true},
 	{"ptrS", "*S", "&S{A: x}", "v.A", "ptr", false},
+	{"NP", "NP", "NP(&S{A: x})", "v.A", "ptr", true},
 	{"slint", "[]int", "[]int{x, 7}", "v[0]", "slice", false},
 	{"NSl", "NSl", "NSl{x}", "v[0]", "slice", true},
 	{"mapsi", "map[string]int", "map[string]int{\"k\": x}", "v[\"k\"]", "map", false},
@@ -56,12 +57,153 @@ type NI int
 type NS string
 type NA [2]int
 type NSl []int
+type NP *S
 type I interface{ ID() int }
 type idv int
 
 func (i idv) ID() int { return int(i) }
 
+// concrete types of every kind that implement I (compose: a result of such a type handed to a
+// parameter of type I); the methods are never called by the drivers
+type PM struct{ A int }
+
+func (p *PM) ID() int {
+	if p == nil {
+		return 0
+	}
+	return p.A
+}
+
+type MM map[string]int
+
+func (m MM) ID() int { return m["k"] }
+
+type SM []int
+
+func (s SM) ID() int { return len(s) }
+
+type FM func() int
+
+func (f FM) ID() int { return 0 }
+
+type CM chan int
+
+func (c CM) ID() int { return cap(c) }
+
+type VM struct{ A int }
+
+func (v VM) ID() int { return v.A }
+
 `
+
+// methodCarriers: not in the rotation; they occur only as converted intermediate results of compose
+var methodCarriers = []carrier{
+	{"idv", "idv", "idv(x)", "int(v)", "numeric", true},
+	{"PM", "*PM", "&PM{A: x}", "v.A", "ptr", false},
+	{"MM", "MM", "MM{\"k\": x}", "v[\"k\"]", "map", true},
+	{"SM", "SM", "SM{x}", "v[0]", "slice", true},
+	{"FM", "FM", "FM(func() int { return x })", "v()", "func", true},
+	{"CM", "CM", "make(CM, x)", "cap(v)", "chan", true},
+	{"VM", "VM", "VM{A: x}", "v.A", "struct", true},
+}
+
+// conv: a result of type src handed to a parameter of the assignable, not identical, type dst.
+// The stage decodes its parameter as "which value of src does it hold": 0 = the zero value of src
+// (for a nillable src inside an interface: a non-nil interface holding the typed nil), id >= 1,
+// -1 = a nil interface where src is concrete (no value of src was handed over), -2 = another type.
+type conv struct {
+	name string
+	src  carrier
+	dst  string
+	body string // decoder body over p (type dst)
+}
+
+func carrierByName(n string) carrier {
+	for _, c := range append(append([]carrier{}, carriers...), methodCarriers...) {
+		if c.name == n {
+			return c
+		}
+	}
+	panic("no carrier " + n)
+}
+
+func convs() []conv {
+	var l []conv
+	viaIface := func(c carrier, dst, tag string) {
+		body := fmt.Sprintf("if p == nil {\n\t\treturn -1\n\t}\n\tv, ok := p.(%s)\n\tif !ok {\n\t\treturn -2\n\t}\n\treturn obs_%s(v)", c.typ, c.name)
+		if c.kind == "iface" {
+			// interface to wider interface: the nil interface stays nil
+			body = fmt.Sprintf("if p == nil {\n\t\treturn 0\n\t}\n\tv, ok := p.(%s)\n\tif !ok {\n\t\treturn -2\n\t}\n\treturn obs_%s(v)", c.typ, c.name)
+		}
+		l = append(l, conv{c.name + "_to_" + tag, c, dst, body})
+	}
+	for _, c := range carriers {
+		if c.name != "iface" {
+			viaIface(c, "interface{}", "any")
+		}
+	}
+	for _, c := range methodCarriers {
+		viaIface(c, "I", "I")
+		viaIface(c, "interface{}", "any")
+	}
+	direct := func(src, dst, tag string) {
+		c := carrierByName(src)
+		l = append(l, conv{c.name + "_to_" + tag, c, dst, fmt.Sprintf("return obs_%s(%s(p))", c.name, parenType(c.typ))})
+	}
+	direct("NSl", "[]int", "slint")
+	direct("slint", "NSl", "NSl")
+	direct("NA", "[2]int", "arr2")
+	direct("arr2", "NA", "NA")
+	direct("NP", "*S", "ptrS")
+	direct("ptrS", "NP", "NP")
+	direct("SM", "[]int", "slint")
+	direct("MM", "map[string]int", "mapsi")
+	direct("CM", "chan int", "chint")
+	direct("FM", "func() int", "fnint")
+	ch := carrierByName("chint")
+	l = append(l, conv{"chint_to_recv", ch, "<-chan int", "if p == nil {\n\t\treturn 0\n\t}\n\treturn cap(p)"})
+	l = append(l, conv{"chint_to_send", ch, "chan<- int", "if p == nil {\n\t\treturn 0\n\t}\n\treturn cap(p)"})
+	return l
+}
+
+func parenType(t string) string {
+	for _, r := range t {
+		if !(r == '_' || r >= '0' && r <= '9' || r >= 'a' && r <= 'z' || r >= 'A' && r <= 'Z') {
+			return "(" + t + ")"
+		}
+	}
+	return t
+}
+
+// pslot: a parameter of an instrumented stage: its type and the decoder of its value
+type pslot struct {
+	typ string
+	dec string
+}
+
+func plain(cs []carrier) []pslot {
+	l := make([]pslot, len(cs))
+	for i, c := range cs {
+		l[i] = pslot{c.typ, "obs_" + c.name}
+	}
+	return l
+}
+
+func ptyps(ps []pslot) []string {
+	l := make([]string, len(ps))
+	for i, p := range ps {
+		l[i] = p.typ
+	}
+	return l
+}
+
+func pparams(prefix string, ps []pslot) string {
+	l := make([]string, len(ps))
+	for i, p := range ps {
+		l[i] = fmt.Sprintf("%s%d %s", prefix, i, p.typ)
+	}
+	return strings.Join(l, ", ")
+}
 
 // types that cannot carry an id, or are rarely spelled: only their zero literal and
 // well-typedness are observed (package c16zero)
@@ -110,6 +252,7 @@ type gen struct {
 	meta      *hx.Meta
 	seen      map[string]bool  // plugin + argument types: goderive wants one name per type tuple
 	composeAr map[string][]int // generated function name -> arity vector, for the translation
+	convs     []conv
 }
 
 // fresh draws types with draw() until the (plugin, key) pair is new; false if 30 draws collide
@@ -195,13 +338,15 @@ func names(prefix string, n int) []string {
 	return l
 }
 
-// stageFunc renders an instrumented stage: logs (idx, decoded args), returns encoded mix values and `last`
-func stageFunc(idx int, withIdx bool, ins, outs []carrier, last, lastType string) string {
+// stageFunc renders an instrumented stage: logs (idx, decoded args), returns encoded mix values and `last`.
+// mask is an int expression: bit j set = result j is the zero value of its type (id 0).
+// Parameters are decoded zero-safely (0 = the zero value of the type).
+func stageFunc(idx int, withIdx bool, ins []pslot, outs []carrier, last, lastType, mask string) string {
 	var b strings.Builder
-	fmt.Fprintf(&b, "func(%s) %s {\n", params("p", ins), results(typs(outs), lastType))
+	fmt.Fprintf(&b, "func(%s) %s {\n", pparams("p", ins), results(typs(outs), lastType))
 	decs := make([]string, len(ins))
 	for i, c := range ins {
-		decs[i] = fmt.Sprintf("dec_%s(p%d)", c.name, i)
+		decs[i] = fmt.Sprintf("%s(p%d)", c.dec, i)
 	}
 	fmt.Fprintf(&b, "\t\t\tin := []int{%s}\n", strings.Join(decs, ", "))
 	if withIdx {
@@ -211,7 +356,7 @@ func stageFunc(idx int, withIdx bool, ins, outs []carrier, last, lastType string
 	}
 	rets := make([]string, 0, len(outs)+1)
 	for j, c := range outs {
-		rets = append(rets, fmt.Sprintf("enc_%s(mix(%d, %d, in))", c.name, idx, j))
+		rets = append(rets, fmt.Sprintf("enc_%s(mixz(%d, %d, in, %s))", c.name, idx, j, mask))
 	}
 	if last != "" {
 		rets = append(rets, last)
@@ -253,14 +398,43 @@ func (g *gen) randArgs(n int) []int {
 }
 
 // ---- compose ----
-func (g *gen) compose(id int, ar []int) {
+// convMode 0: every parameter has exactly the type of the result it receives; 1: every intermediate
+// slot is converted (result type src, parameter type dst: assignable, not identical); 2: each
+// intermediate slot is converted with probability 1/2.  first, if not nil, is the conversion of
+// the intermediate slot (1, 0).
+func (g *gen) compose(id int, ar []int, convMode int, first *conv) {
 	n := len(ar) - 1
-	sl := make([][]carrier, n+1)
+	sl := make([][]carrier, n+1) // result types; sl[0]: parameter types of stage 0
+	ps := make([][]pslot, n)     // parameters of stage i
+	var used []string
 	if !g.fresh("compose", func() string {
 		k := ""
+		used = nil
 		for i := range sl {
 			sl[i] = g.nexts(ar[i])
+			if i < n {
+				ps[i] = plain(sl[i])
+			}
+			if i >= 1 && i < n {
+				for j := range sl[i] {
+					var cv *conv
+					switch {
+					case first != nil && i == 1 && j == 0:
+						cv = first
+					case convMode == 1 || convMode == 2 && g.r.Intn(2) == 0:
+						cv = &g.convs[g.r.Intn(len(g.convs))]
+					}
+					if cv != nil {
+						sl[i][j] = cv.src
+						ps[i][j] = pslot{cv.dst, "cdec_" + cv.name}
+						used = append(used, cv.name)
+					}
+				}
+			}
 			k += strings.Join(typs(sl[i]), ",") + ";"
+			if i < n {
+				k += strings.Join(ptyps(ps[i]), ",") + "|"
+			}
 		}
 		return k
 	}) {
@@ -270,23 +444,24 @@ func (g *gen) compose(id int, ar []int) {
 	dn := fmt.Sprintf("deriveCompose_%d", id)
 	g.zeroSlots[dn] = slots(sl[n])
 	g.composeAr[dn] = ar
-	var ps []string
+	var sig []string
 	for i := 0; i < n; i++ {
-		ps = append(ps, fmt.Sprintf("f%d func(%s) %s", i, params("a", sl[i]), results(typs(sl[i+1]), "error")))
+		sig = append(sig, fmt.Sprintf("f%d func(%s) %s", i, pparams("a", ps[i]), results(typs(sl[i+1]), "error")))
 	}
-	fmt.Fprintf(&g.calls, "func %s(%s) func(%s) %s {\n\treturn %s(%s)\n}\n", fn, strings.Join(ps, ", "),
-		strings.Join(typs(sl[0]), ", "), results(typs(sl[n]), "error"), dn, strings.Join(names("f", n), ", "))
-	fmt.Fprintf(&g.drv, "\nfunc init() {\n\tcomposeAr[%d] = %s\n\tcomposeT[%d] = func(errs []int, args []int) (res []int, et int, log [][]int) {\n", id, goInts(ar), id)
+	fmt.Fprintf(&g.calls, "func %s(%s) func(%s) %s {\n\treturn %s(%s)\n}\n", fn, strings.Join(sig, ", "),
+		strings.Join(ptyps(ps[0]), ", "), results(typs(sl[n]), "error"), dn, strings.Join(names("f", n), ", "))
+	fmt.Fprintf(&g.drv, "\nfunc init() {\n\tcomposeAr[%d] = %s\n\tcomposeT[%d] = func(errs, zs, args []int) (res []int, et int, log [][]int) {\n", id, goInts(ar), id)
 	for i := 0; i < n; i++ {
-		fmt.Fprintf(&g.drv, "\t\tf%d := %s\n", i, stageFunc(i, true, sl[i], sl[i+1], fmt.Sprintf("sentinel(errs[%d])", i), "error"))
+		fmt.Fprintf(&g.drv, "\t\tf%d := %s\n", i, stageFunc(i, true, ps[i], sl[i+1], fmt.Sprintf("sentinel(errs[%d])", i), "error", fmt.Sprintf("zs[%d]", i)))
 	}
 	fmt.Fprintf(&g.drv, "\t\t%s := %s(%s)(%s)\n", lhs(names("r", ar[n]), "err"), fn, strings.Join(names("f", n), ", "), encArgs(sl[0]))
 	fmt.Fprintf(&g.drv, "\t\tres = %s\n\t\tet = tagOf(err)\n\t\treturn\n\t}\n}\n", obsList("r", sl[n]))
 	// cases: no failure; each position x each sentinel; each position with every later stage failing too
-	emit := func(errs []int) {
-		fmt.Fprintf(&g.cases, "compose %d %s %s\n", id, csv(errs), csv(g.randArgs(ar[0])))
+	emitz := func(errs, zs, args []int) {
+		fmt.Fprintf(&g.cases, "compose %d %s %s %s\n", id, csv(errs), csv(zs), csv(args))
 		g.ncase++
 	}
+	emit := func(errs []int) { emitz(errs, make([]int, n), g.randArgs(ar[0])) }
 	emit(make([]int, n))
 	for k := 0; k < n; k++ {
 		for t := 1; t <= 2; t++ {
@@ -310,9 +485,48 @@ func (g *gen) compose(id int, ar []int) {
 		e[g.r.Intn(n)] = 3
 		emit(e)
 	}
+	// zero values are values: arguments and (intermediate, final) results that are the zero value
+	// of their type (nil pointer, nil map, 0, "", ...) next to a nil error are passed on like any other
+	if ar[0] > 0 {
+		emitz(make([]int, n), make([]int, n), make([]int, ar[0]))
+	}
+	nres := 0
+	for _, a := range ar[1:] {
+		nres += a
+	}
+	if nres > 0 {
+		all := make([]int, n)
+		for i := range all {
+			all[i] = 7
+		}
+		emitz(make([]int, n), all, g.randArgs(ar[0]))
+		// every stage before the last returns zero values; the last one fails
+		e := make([]int, n)
+		e[n-1] = 1 + id%2
+		z := append([]int{}, all...)
+		z[n-1] = 0
+		emitz(e, z, g.randArgs(ar[0]))
+		rz := func() []int {
+			z := make([]int, n)
+			for i := range z {
+				z[i] = g.r.Intn(8)
+			}
+			return z
+		}
+		emitz(make([]int, n), rz(), g.randArgs(ar[0]))
+		e = make([]int, n)
+		e[g.r.Intn(n)] = 1 + g.r.Intn(2)
+		emitz(e, rz(), g.randArgs(ar[0]))
+	}
 	g.meta.Count(fmt.Sprintf("compose/stages=%d", n))
 	for _, c := range sl[n] {
 		g.meta.Count("compose/final-kind=" + kindName(c))
+	}
+	for _, u := range used {
+		g.meta.Count("compose/converted-slot=" + u)
+	}
+	if len(used) > 0 {
+		g.meta.Count(fmt.Sprintf("compose/with-converted-slots/stages=%d", n))
 	}
 }
 
@@ -332,8 +546,8 @@ func kindName(c carrier) string {
 // result, traverse and toerror.
 func hasEmptyIface(cs []carrier) bool {
 	for _, c := range cs {
-		// NSl/[]int and NA/[2]int are assignable to each other as well
-		if c.name == "iface" || c.name == "NSl" || c.name == "NA" {
+		// NSl/[]int, NA/[2]int and NP/*S are assignable to each other as well
+		if c.name == "iface" || c.name == "NSl" || c.name == "NA" || c.name == "NP" {
 			return true
 		}
 	}
@@ -341,11 +555,16 @@ func hasEmptyIface(cs []carrier) bool {
 }
 
 // ---- fmap (error forms) ----
-func (g *gen) fmap(id, arity int) {
+// fixed, if not nil, is the value type A of g
+func (g *gen) fmap(id, arity int, fixed *carrier) {
 	var a carrier
 	var outs []carrier
 	if !g.fresh("fmap", func() string {
-		a = g.next()
+		if fixed != nil {
+			a = *fixed
+		} else {
+			a = g.next()
+		}
 		outs = g.nexts(arity)
 		for arity >= 2 && hasEmptyIface(outs) {
 			outs = g.nexts(arity)
@@ -371,7 +590,7 @@ func (g *gen) fmap(id, arity int) {
 		fn, a.typ, results(typs(outs), ""), a.typ, ret, dn)
 	fmt.Fprintf(&g.drv, "\nfunc init() {\n\tfmapAr[%d] = %d\n\tfmapT[%d] = func(gerr, gval int) (res string, et int, log [][]int) {\n", id, arity, id)
 	fmt.Fprintf(&g.drv, "\t\tg := func() (%s, error) {\n\t\t\tlog = append(log, []int{0})\n\t\t\treturn enc_%s(gval), sentinel(gerr)\n\t\t}\n", a.typ, a.name)
-	fmt.Fprintf(&g.drv, "\t\tf := %s\n", stageFunc(1, true, []carrier{a}, outs, "", ""))
+	fmt.Fprintf(&g.drv, "\t\tf := %s\n", stageFunc(1, true, plain([]carrier{a}), outs, "", "", "0"))
 	switch arity {
 	case 0:
 		fmt.Fprintf(&g.drv, "\t\terr := %s(f, g)\n\t\tres = \"()\"\n", fn)
@@ -387,7 +606,11 @@ func (g *gen) fmap(id, arity int) {
 		fmt.Fprintf(&g.cases, "fmap %d %d %d\n", id, ge, 1+g.r.Intn(90))
 		g.ncase++
 	}
+	// g returns the zero value of A (nil pointer, nil map, 0, ...) without an error: f is applied to it
+	fmt.Fprintf(&g.cases, "fmap %d 0 0\nfmap %d %d 0\n", id, id, 1+id%3)
+	g.ncase += 2
 	g.meta.Count(fmt.Sprintf("fmap/arity=%d", arity))
+	g.meta.Count("fmap/value-kind=" + kindName(a))
 }
 
 // deriveJoin(deriveFmap(f, g)) with f : A -> (C, error)
@@ -410,7 +633,7 @@ func (g *gen) bind(id int) {
 		fn, a.typ, c.typ, a.typ, c.typ, id, id)
 	fmt.Fprintf(&g.drv, "\nfunc init() {\n\tbindT[%d] = func(gerr, gval, ferr int) (res []int, et int, log [][]int) {\n", id)
 	fmt.Fprintf(&g.drv, "\t\tg := func() (%s, error) {\n\t\t\tlog = append(log, []int{0})\n\t\t\treturn enc_%s(gval), sentinel(gerr)\n\t\t}\n", a.typ, a.name)
-	fmt.Fprintf(&g.drv, "\t\tf := %s\n", stageFunc(1, true, []carrier{a}, []carrier{c}, "sentinel(ferr)", "error"))
+	fmt.Fprintf(&g.drv, "\t\tf := %s\n", stageFunc(1, true, plain([]carrier{a}), []carrier{c}, "sentinel(ferr)", "error", "0"))
 	fmt.Fprintf(&g.drv, "\t\tr0, err := %s(f, g)\n\t\tres = %s\n\t\tet = tagOf(err)\n\t\treturn\n\t}\n}\n", fn, obsList("r", []carrier{c}))
 	for _, ge := range []int{0, 1, 2, 3} {
 		for _, fe := range []int{0, 1, 2, 3} {
@@ -421,6 +644,8 @@ func (g *gen) bind(id int) {
 			g.ncase++
 		}
 	}
+	fmt.Fprintf(&g.cases, "bind %d 0 0 0\nbind %d 0 0 %d\n", id, id, 1+id%3)
+	g.ncase += 2
 	g.meta.Count("bind")
 }
 
@@ -474,10 +699,14 @@ func (g *gen) join(id, n int) {
 }
 
 // ---- traverse ----
-func (g *gen) traverse(id int, maxLen int) {
+// fixed, if not nil, is the element type of the list
+func (g *gen) traverse(id int, maxLen int, fixed *carrier) {
 	var a, b carrier
 	if !g.fresh("traverse", func() string {
 		a, b = g.next(), g.next()
+		if fixed != nil {
+			a = *fixed
+		}
 		return a.typ + ";" + b.typ
 	}) {
 		return
@@ -487,7 +716,7 @@ func (g *gen) traverse(id int, maxLen int) {
 		fn, a.typ, b.typ, a.typ, b.typ, id)
 	fmt.Fprintf(&g.drv, "\nfunc init() {\n\ttravT[%d] = func(ids []int, isNil bool, tbl map[int]int) (res string, et int, log []int) {\n", id)
 	fmt.Fprintf(&g.drv, "\t\tvar in []%s\n\t\tif !isNil {\n\t\t\tin = make([]%s, 0, len(ids))\n\t\t}\n\t\tfor _, x := range ids {\n\t\t\tin = append(in, enc_%s(x))\n\t\t}\n", a.typ, a.typ, a.name)
-	fmt.Fprintf(&g.drv, "\t\tf := func(p %s) (%s, error) {\n\t\t\tx := dec_%s(p)\n\t\t\tlog = append(log, x)\n\t\t\treturn enc_%s(mix(0, 0, []int{x})), sentinel(tbl[x])\n\t\t}\n", a.typ, b.typ, a.name, b.name)
+	fmt.Fprintf(&g.drv, "\t\tf := func(p %s) (%s, error) {\n\t\t\tx := obs_%s(p)\n\t\t\tlog = append(log, x)\n\t\t\tif tbl[x] == 4 {\n\t\t\t\treturn enc_%s(0), nil\n\t\t\t}\n\t\t\treturn enc_%s(mix(0, 0, []int{x})), sentinel(tbl[x])\n\t\t}\n", a.typ, b.typ, a.name, b.name, b.name)
 	fmt.Fprintf(&g.drv, "\t\tout, err := %s(f, in)\n\t\tet = tagOf(err)\n", fn)
 	fmt.Fprintf(&g.drv, "\t\tswitch {\n\t\tcase err == nil && len(out) == 0 && out != nil:\n\t\t\tres = \"()\"\n\t\tcase out == nil:\n\t\t\tres = \"nil\"\n\t\tdefault:\n\t\t\tl := make([]int, len(out))\n\t\t\tfor i, v := range out {\n\t\t\t\tl[i] = obs_%s(v)\n\t\t\t}\n\t\t\tres = ints(l)\n\t\t}\n\t\treturn\n\t}\n}\n", b.name)
 	emit := func(ids []int, isNil bool, tbl [][2]int) {
@@ -529,8 +758,24 @@ func (g *gen) traverse(id int, maxLen int) {
 			d[n-1] = d[1]
 			emit(d, false, [][2]int{{d[1], 2}})
 		}
+		if n >= 1 {
+			// an element that is the zero value of its type (nil pointer, 0, ...) is an element
+			d := append([]int{}, ids...)
+			d[n/2] = 0
+			emit(d, false, nil)
+			emit(d, false, [][2]int{{d[n-1], 1 + n%2}})
+			if n >= 2 {
+				emit(d, false, [][2]int{{0, 2 - n%2}})
+			}
+			// table entry 4: f returns the zero value of its result type and a nil error
+			emit(ids, false, [][2]int{{ids[n/2], 4}})
+			if n >= 2 {
+				emit(ids, false, [][2]int{{ids[0], 4}, {ids[n-1], 1 + n%2}})
+			}
+		}
 	}
 	g.meta.Count("traverse/instances")
+	g.meta.Count("traverse/element-kind=" + kindName(a))
 }
 
 // ---- toerror ----
@@ -557,7 +802,7 @@ func (g *gen) toerror(id, np, nout int) {
 	fmt.Fprintf(&g.calls, "func %s(e error, f func(%s) %s) func(%s) %s {\n\treturn deriveToError_%d(e, f)\n}\n",
 		fn, params("a", ins), fres, strings.Join(typs(ins), ", "), results(typs(outs), "error"), id)
 	fmt.Fprintf(&g.drv, "\nfunc init() {\n\ttoerrAr[%d] = [2]int{%d, %d}\n\ttoerrT[%d] = func(args []int, success bool, etag int) (res []int, et int, log [][]int) {\n", id, np, nout, id)
-	fmt.Fprintf(&g.drv, "\t\tf := %s\n", stageFunc(0, false, ins, outs, "success", "bool"))
+	fmt.Fprintf(&g.drv, "\t\tf := %s\n", stageFunc(0, false, plain(ins), outs, "success", "bool", "0"))
 	fmt.Fprintf(&g.drv, "\t\t%s := %s(sentinel(etag), f)(%s)\n\t\tres = %s\n\t\tet = tagOf(err)\n\t\treturn\n\t}\n}\n",
 		lhs(names("r", nout), "err"), fn, encArgs(ins), obsList("r", outs))
 	for _, sc := range []int{1, 0} {
@@ -565,6 +810,11 @@ func (g *gen) toerror(id, np, nout int) {
 			fmt.Fprintf(&g.cases, "toerror %d %s %d %d\n", id, csv(g.randArgs(np)), sc, t)
 			g.ncase++
 		}
+	}
+	if np > 0 {
+		// zero-valued arguments
+		fmt.Fprintf(&g.cases, "toerror %d %s 1 1\ntoerror %d %s 0 2\n", id, csv(make([]int, np)), id, csv(make([]int, np)))
+		g.ncase += 2
 	}
 	g.meta.Count(fmt.Sprintf("toerror/params=%d,outs=%d", np, nout))
 }
@@ -614,11 +864,16 @@ func Run(cfg hx.Config) (*hx.Meta, error) {
 	g := &gen{r: hx.NewRand(cfg.Seed), zeroSlots: map[string][]slot{}, meta: meta, seen: map[string]bool{}, composeAr: map[string][]int{}}
 	g.order = append([]carrier{}, carriers...)
 	hx.Shuffle(g.r, g.order)
+	g.convs = convs()
 	g.calls.WriteString("package main\n\n" + typeDecls)
 	g.drv.WriteString(driverHeader)
-	for _, c := range carriers {
-		fmt.Fprintf(&g.drv, "func enc_%s(x int) %s { return %s }\nfunc dec_%s(v %s) int { return %s }\nfunc obs_%s(v %s) int {\n\tif isZero(&v) {\n\t\treturn 0\n\t}\n\treturn dec_%s(v)\n}\n",
-			c.name, c.typ, c.enc, c.name, c.typ, c.dec, c.name, c.typ, c.name)
+	for _, c := range append(append([]carrier{}, carriers...), methodCarriers...) {
+		// id 0 is the zero value of the type, ids >= 1 are non-zero values
+		fmt.Fprintf(&g.drv, "func enc_%s(x int) %s {\n\tif x == 0 {\n\t\tvar z %s\n\t\treturn z\n\t}\n\treturn %s\n}\nfunc dec_%s(v %s) int { return %s }\nfunc obs_%s(v %s) int {\n\tif isZero(&v) {\n\t\treturn 0\n\t}\n\treturn dec_%s(v)\n}\n",
+			c.name, c.typ, c.typ, c.enc, c.name, c.typ, c.dec, c.name, c.typ, c.name)
+	}
+	for _, cv := range g.convs {
+		fmt.Fprintf(&g.drv, "func cdec_%s(p %s) int {\n\t%s\n}\n", cv.name, cv.dst, cv.body)
 	}
 
 	id := 0
@@ -635,7 +890,7 @@ func Run(cfg hx.Config) (*hx.Meta, error) {
 		}
 		for rep := 0; rep < rr; rep++ {
 			for _, ar := range vs {
-				g.compose(id, ar)
+				g.compose(id, ar, 0, nil)
 				id++
 			}
 		}
@@ -645,7 +900,7 @@ func Run(cfg hx.Config) (*hx.Meta, error) {
 		vs := arityVectors(5, 3)
 		hx.Shuffle(g.r, vs)
 		for _, ar := range vs[:48] {
-			g.compose(id, ar)
+			g.compose(id, ar, 0, nil)
 			id++
 		}
 	} else {
@@ -654,19 +909,60 @@ func Run(cfg hx.Config) (*hx.Meta, error) {
 			vs := arityVectors(n+1, 3)
 			hx.Shuffle(g.r, vs)
 			for _, ar := range vs[:128] {
-				g.compose(id, ar)
+				g.compose(id, ar, 0, nil)
+				id++
+			}
+		}
+	}
+	// chains whose neighbouring types are assignable but not identical (concrete type -> interface,
+	// named <-> unnamed, chan -> directional chan): every conversion once as the only intermediate
+	// value of a two-stage chain, then seeded shapes of 2..4 stages with all / half of the
+	// intermediate slots converted
+	for i := range g.convs {
+		g.compose(id, []int{i % 3, 1, 1 + i%2}, 0, &g.convs[i])
+		id++
+	}
+	{
+		nconv := 16
+		if thorough {
+			nconv = 96
+		}
+		for _, n := range []int{2, 3, 4} {
+			var vs [][]int
+			for _, ar := range arityVectors(n+1, 3) {
+				mid := 0
+				for _, a := range ar[1:n] {
+					mid += a
+				}
+				if mid > 0 {
+					vs = append(vs, ar)
+				}
+			}
+			hx.Shuffle(g.r, vs)
+			if len(vs) > nconv {
+				vs = vs[:nconv]
+			}
+			for k, ar := range vs {
+				g.compose(id, ar, 1+k%2, nil)
 				id++
 			}
 		}
 	}
 	ncomp := id
+	// the error forms of fmap over every value type (arity 0, 1, 2 of f)
+	for i := range carriers {
+		for arity := 0; arity <= 2; arity++ {
+			g.fmap(id, arity, &carriers[i])
+			id++
+		}
+	}
 	nf := 3
 	if thorough {
 		nf = 12
 	}
 	for k := 0; k < nf; k++ {
 		for arity := 0; arity <= 3; arity++ {
-			g.fmap(id, arity)
+			g.fmap(id, arity, nil)
 			id++
 		}
 		for n := 0; n <= 3; n++ {
@@ -678,12 +974,13 @@ func Run(cfg hx.Config) (*hx.Meta, error) {
 		g.bind(id)
 		id++
 	}
-	ntrav, maxLen := 17, 5
+	// every carrier is the element type of a list once (thorough: four times)
+	ntrav, maxLen := len(carriers), 5
 	if thorough {
-		ntrav, maxLen = 68, 9
+		ntrav, maxLen = 4*len(carriers), 9
 	}
 	for k := 0; k < ntrav; k++ {
-		g.traverse(id, maxLen)
+		g.traverse(id, maxLen, &carriers[k%len(carriers)])
 		id++
 	}
 	nte := 1
@@ -1016,13 +1313,30 @@ func mix(i, j int, in []int) int {
 	for k, x := range in {
 		w += (k + 1) * x
 	}
-	return 1 + (31*i+7*j+3*w)%97
+	return 1 + ((31*i+7*j+3*w)%97+97)%97
+}
+
+// mixz: result j of stage i, or 0 (the zero value) when bit j of mask is set
+func mixz(i, j int, in []int, mask int) int {
+	if mask>>uint(j)&1 == 1 {
+		return 0
+	}
+	return mix(i, j, in)
+}
+
+func allZero(l []int) bool {
+	for _, x := range l {
+		if x != 0 {
+			return false
+		}
+	}
+	return true
 }
 
 func isZero(p interface{}) bool { return reflect.ValueOf(p).Elem().IsZero() }
 func atoi(s string) int        { n, _ := strconv.Atoi(s); return n }
 
-var composeT = map[int]func(errs []int, args []int) (res []int, et int, log [][]int){}
+var composeT = map[int]func(errs, zs, args []int) (res []int, et int, log [][]int){}
 var composeAr = map[int][]int{}
 var fmapT = map[int]func(gerr, gval int) (res string, et int, log [][]int){}
 var fmapAr = map[int]int{}
@@ -1089,9 +1403,13 @@ func main() {
 			}()
 			switch p[0] {
 			case "compose":
-				errs, args := parseCSV(p[2]), parseCSV(p[3])
-				head = fmt.Sprintf("compose %s %s %s", ints(composeAr[id]), ints(errs), ints(args))
-				res, et, log := composeT[id](errs, args)
+				errs, zs, args := parseCSV(p[2]), parseCSV(p[3]), parseCSV(p[4])
+				if allZero(zs) {
+					head = fmt.Sprintf("compose %s %s %s", ints(composeAr[id]), ints(errs), ints(args))
+				} else {
+					head = fmt.Sprintf("composez %s %s %s %s", ints(composeAr[id]), ints(errs), ints(zs), ints(args))
+				}
+				res, et, log := composeT[id](errs, zs, args)
 				fmt.Fprintf(w, "(%s (ret %s %d %s))\n", head, ints(res), et, intss(log))
 			case "fmap":
 				gerr, gval := atoi(p[2]), atoi(p[3])
